@@ -59,3 +59,10 @@ item("litPartialMinChunk", "src/packet/literal_data.rs", r"impl<R: io::Read> Lit
 item("cmpPartialMinChunk", "src/packet/compressed_data.rs", r"ensure!\(chunk_size >= (\d+)", "CompressedDataPartialGenerator::new minimum chunk size")
 
 
+
+# ---- packet/many.rs: the end of a packet stream vs. a failing reader below -------------------
+PM = "src/packet/many.rs"
+flag("fixD4nNextRefTracksErrors", PM, r"pub fn next_ref\(.*?TrackErrors \{.*?UnexpectedEof && !tracked\.failed.*?pub fn next_owned",
+     "D4n repaired: next_ref treats an UnexpectedEof raised by the reader below while a header is read as an error")
+flag("fixD4pIteratorTracksErrors", PM, r"impl<R: BufRead> Iterator for PacketParser<R> \{.*?fn next\(&mut self\).*?TrackErrors \{.*?UnexpectedEof && !tracked\.failed.*?Some\(res\)\s*\}\s*\}",
+     "D4p repaired: the PacketParser iterator does the same")
